@@ -106,6 +106,12 @@ def is_pvar(v):
     return v.startswith("param:")
 
 
+def target_var(v, deep):
+    """the variable an effect on region element (v, _, deep) is booked on: parameters distinguish the object passed in
+    from what is reached inside it (`param:..[*]`), real shared variables do not"""
+    return v + "[*]" if (deep and is_pvar(v)) else v
+
+
 def dotted(e):
     if isinstance(e, ast.Name):
         return e.id
@@ -174,6 +180,7 @@ class World:
         self.subclasses = {}    # (mod,name) -> set of (mod,name) (transitive)
         self.attr_by_name = {}  # attr -> [class-attr var]
         self.returns = {}       # fid -> region the return value may point into
+        self.param_memo = {}
         self.gaps = []          # human-readable notes about opaque constructs
         self.trees = {}
 
@@ -470,7 +477,7 @@ class Builder:
         return bool(self.w.vars.get(v, {}).get("flat"))
 
     def mut(self, reg):
-        return [("ev", v, "mutate", rk) for (v, rk) in sorted({(v, rk) for (v, rk, _) in reg})]
+        return [("ev", v, "mutate", rk) for (v, rk) in sorted({(target_var(v, dp), rk) for (v, rk, dp) in reg})]
 
     def esc_filter(self, reg):
         """what matters when a value is let go: elements of a flat literal container are immutable"""
@@ -638,6 +645,13 @@ class Builder:
 
     def param_of(self, t, key, bound):
         """pseudo variable of the parameter of function t that receives argument `key`, or None (unknown)"""
+        ck = (t, key, bound)
+        memo = self.w.param_memo
+        if ck not in memo:
+            memo[ck] = self.param_of_(t, key, bound)
+        return memo[ck]
+
+    def param_of_(self, t, key, bound):
         f = self.w.funcs.get(t)
         if f is None:
             return None
@@ -779,7 +793,7 @@ class Builder:
                         # method of an external object reached from shared state, not known to be a reader
                         out += self.mut(recv_region)
                     else:
-                        out.append(("selfmut", sorted({(v, rk) for (v, rk, _) in recv_region}), sorted(targets)))
+                        out.append(("selfmut", sorted(recv_region), sorted(targets)))
         else:
             out.append(self.expr(fn))
         for a in e.args:
@@ -796,7 +810,7 @@ class Builder:
                 if not targets or key in ("*", "**"):
                     out += self.mut(reg)
                 else:
-                    out.append(("argpass", sorted({(v, rk) for (v, rk, _) in reg}), sorted(set(targets)), key, r["bound"]))
+                    out.append(("argpass", sorted(reg), sorted(set(targets)), key, r["bound"]))
         if targets:
             out.append(("call", sorted(set(targets)), r["via_self"]))
         return ("seq", out)
@@ -1173,11 +1187,18 @@ class Evaluator:
             return {}, None, None
         if k == "argpass":
             _, reg, targets, key, bound = ir
+            deep = False
             for t in targets:
                 pv = self.pb.param_of(t, key, bound)
-                e = self.summ.get(t, {}).get(pv) if pv else None
+                st = self.summ.get(t, {})
+                e = st.get(pv) if pv else None
                 if pv is None or (e is not None and (e[2] or e[3] or e[4])):
-                    return self.mutate_all(reg), None, None
+                    return self.mutate_all(reg), None, None     # the object passed in is mutated / escapes
+                e2 = st.get(pv + "[*]")
+                deep = deep or (e2 is not None and (e2[2] or e2[3] or e2[4]))
+            if deep:    # only things reached inside it are: harmless for flat literals (immutable elements)
+                return self.mutate_all([(v, rk, True) for (v, rk, dp) in reg
+                                        if not self.w.vars.get(v, {}).get("flat")]), None, None
             return {}, None, None
         if k == "ret":
             return None, {}, None
@@ -1187,9 +1208,11 @@ class Evaluator:
 
     def mutate_all(self, reg):
         out = {}
-        for (v, rk) in reg:
+        for (v, rk, dp) in reg:
             if not (v in self.drop and rk in ("S", "O")):
-                out[v] = join1(out.get(v, ID), evt("mutate", rk)) if v in out else evt("mutate", rk)
+                tv = target_var(v, dp)
+                e = evt("mutate", rk)
+                out[tv] = tuple(x or y for x, y in zip(out[tv], e)) if tv in out else e
         return out
 
     def function_summary(self, fid):
@@ -1235,7 +1258,8 @@ def written_candidates(w):
             if ir[2] in ("mutate", "rebind", "classwrite"):
                 out.add(ir[1])
         elif k in ("selfmut", "argpass"):
-            out.update(v for (v, rk) in ir[1])
+            out.update(target_var(v, dp) for (v, rk, dp) in ir[1])
+            out.update(target_var(v, True) for (v, rk, dp) in ir[1])
         elif k in ("seq", "alt"):
             for x in ir[1]:
                 walk(x)
@@ -1244,6 +1268,34 @@ def written_candidates(w):
     for f in w.funcs.values():
         walk(f.ir)
     return out
+
+
+EMPTY = ("seq", [])
+
+
+def prune(ir, track):
+    """drop events on untracked variables and empty structure (pure speed-up: they evaluate to the identity)"""
+    k = ir[0]
+    if k == "ev":
+        return ir if ir[1] in track else EMPTY
+    if k == "seq":
+        out = []
+        for x in ir[1]:
+            y = prune(x, track)
+            if y[0] == "seq":
+                out.extend(y[1])
+            else:
+                out.append(y)
+        return ("seq", out) if out else EMPTY
+    if k == "alt":
+        bs = [prune(x, track) for x in ir[1]]
+        if all(b == EMPTY for b in bs):
+            return EMPTY
+        return ("alt", bs)
+    if k in ("loop", "weak"):
+        y = prune(ir[1], track)
+        return EMPTY if y == EMPTY else (k, y)
+    return ir
 
 
 def mutates_self_closure(w):
@@ -1297,6 +1349,8 @@ def analyse(repo):
             break
     mutates_self_closure(w)
     w.track = written_candidates(w)
+    for f in w.funcs.values():
+        f.ir = prune(f.ir, w.track)
     # phase 1: nothing dropped -> which class attributes are assigned by every constructor before being read?
     ev1 = Evaluator(w, set())
     r1 = ev1.run()
